@@ -33,7 +33,9 @@ def main():
     pid = sys.argv[1]
     flt = sys.argv[2] if len(sys.argv) > 2 else ""
     tier = os.environ.get("MUTANT_TIER", "quick")
-    muts = json.load(open(os.path.join(ROOT, "mutants", pid + ".json")))
+    # MUTANT_FILE: candidates from another file (audits); results are then not recorded under mutants/results
+    mfile = os.environ.get("MUTANT_FILE") or os.path.join(ROOT, "mutants", pid + ".json")
+    muts = json.load(open(mfile))
     results = []
     # MUTANT_BASE_OVERLAY: an overlay (e.g. a not yet committed fix) every mutant is applied on top of
     base = {}
@@ -47,11 +49,17 @@ def main():
             repl = {}
             edits = m.get("edits") or [m]
             bysrc = {}
-            for e in edits:
-                e = dict(e); e.setdefault("name", m["name"])
-                path = os.path.join(REPO, e["file"])
-                src = bysrc.get(path) or open(base.get(path, path)).read()
-                bysrc[path] = apply(src, e)
+            try:
+                for e in edits:
+                    e = dict(e); e.setdefault("name", m["name"])
+                    path = os.path.join(REPO, e["file"])
+                    src = bysrc.get(path) or open(base.get(path, path)).read()
+                    bysrc[path] = apply(src, e)
+            except SystemExit as ex:
+                if not os.environ.get("MUTANT_FILE"):
+                    raise
+                print("%-60s INFRA %s" % (m["name"], ex), flush=True)
+                continue
             for i, (path, src) in enumerate(bysrc.items()):
                 out = os.path.join(tmp, "%d_%s" % (i, os.path.basename(path)))
                 open(out, "w").write(src)
@@ -75,7 +83,7 @@ def main():
                 print(p.stdout[-1500:])
         finally:
             shutil.rmtree(tmp, ignore_errors=True)
-    if not flt:
+    if not flt and not os.environ.get("MUTANT_FILE"):
         os.makedirs(os.path.join(ROOT, "mutants", "results"), exist_ok=True)
         json.dump(results, open(os.path.join(ROOT, "mutants", "results", pid + ".json"), "w"), indent=1)
     missed = [r for r in results if not r["caught"]]
